@@ -305,6 +305,10 @@ func runC20(c *Ctx) {
 		{name: "S4 M-2 hint", w: 40, w2: 20, script: []string{"a", "\x1b2", "b", "\r"}},
 		{name: "S5 two-line buffer (backslash continuation)", w: 40, w2: 20, script: []string{"a\\", "\r", "b", "\r"}, multi: true},
 		{name: "S6 wrapped at 8 columns", w: 8, w2: 12, script: []string{"abcdefgh", "i", "\r"}},
+		// cycling through a menu of two tagged groups, each with described and undescribed values: a
+		// resize between any two TABs regenerates the grid and must keep the place in the cycle
+		{name: "S7 a TAB x5 Enter (two tags, partly described)", w: 40, w2: 20, script: []string{"a", "\t", "\t", "\t", "\t", "\t", "\r"},
+			comps: []string{"apple|red|fruits", "apricot||fruits", "avocado||fruits", "ant||animals", "ape|primate|animals", "asp||animals"}},
 	}
 	budgets := []c20Budget{{"1 SIGWINCH", 1, 0}, {"1 Printf", 0, 1}, {"2 SIGWINCH", 2, 0}, {"1 SIGWINCH + 1 Printf", 1, 1}}
 	c.Rule = fmt.Sprintf("for %d scenarios x %d disturbance budgets, all schedules with <= P deviations, P up to %d (per scenario/budget, listed under extra.bounds) (a SIGWINCH delivery with a size change, the start of a concurrent Printf, or a switch away from a runnable thread costs 1; free choices among threads when the running one blocks are always explored) of the real Readline loop + resize watcher + Printf under a cooperative scheduler, user chunks delivered at quiescence. state = scheduling point; transition = one scheduled operation. non-trivial = distinct complete schedules containing at least one disturbance", len(scen), len(budgets), P)
@@ -367,7 +371,15 @@ func runC20(c *Ctx) {
 				if len(sc.comps) > 0 {
 					cs := &harness.CompSpec{ByWord: true}
 					for _, v := range sc.comps {
-						cs.Items = append(cs.Items, harness.Comp{Value: v})
+						parts := strings.SplitN(v, "|", 3)
+						it := harness.Comp{Value: parts[0]}
+						if len(parts) > 1 {
+							it.Desc = parts[1]
+						}
+						if len(parts) > 2 {
+							it.Tag = parts[2]
+						}
+						cs.Items = append(cs.Items, it)
 					}
 					ja.Cfg.Comps = cs
 				}
